@@ -148,11 +148,11 @@ Proof. exact node_addr_unique. Qed.
 Print Assumptions C07_pid_address.
 
 (* ---- C07_view_updates: after ANY history the decision is a function of the functions
-        registered last, the default installed last and the LAST view only ---- *)
-Theorem C07_view_updates : forall (F : Type) (interp : F -> rfn) (pinterp : F -> rule)
+        registered at that point, the default installed last and the LAST view only ---- *)
+Theorem C07_view_updates : forall (F : Type) (interp : F -> rfn) (pinterp : F -> rule F)
     (h : list (op F)) (o : op F),
-  obs_at interp pinterp h o =
-  out (hreg interp h) (hdflt interp h) (hrules pinterp h) (hpdflt pinterp h) (last_view h) o.
+  obs_at interp pinterp h o
+  = out interp pinterp (fns_at interp pinterp h) (dflt_at h) (last_view h) o.
 Proof. exact obs_at_history. Qed.
 Print Assumptions C07_view_updates.
 
@@ -166,96 +166,165 @@ Theorem C07_last_view_frame : forall (F : Type) (h : list (op F)) o,
 Proof. exact last_view_frame. Qed.
 Print Assumptions C07_last_view_frame.
 
-(* routing decisions change nothing *)
-Theorem C07_decision_frame : forall (F : Type) (s : st F) (o : op F),
-  is_decision o = true -> next s o = s.
+(* the functions registered: Register(ty, f) replaces the entry of ty and nothing else ... *)
+Theorem C07_registered_after_register : forall (F : Type) (interp : F -> rfn) (pinterp : F -> rule F)
+    (h : list (op F)) ty f,
+  fns_at interp pinterp (h ++ [OReg ty f]) = treg ty f (fns_at interp pinterp h).
+Proof. exact fns_at_reg. Qed.
+Print Assumptions C07_registered_after_register.
+
+(* ... and any other operation changes them exactly as the rules that ran for it registered *)
+Theorem C07_registered_after : forall (F : Type) (interp : F -> rfn) (pinterp : F -> rule F)
+    (h : list (op F)) o,
+  fns_at interp pinterp (h ++ [o])
+  = fns_after pinterp (fns_at interp pinterp h) (dflt_at h) (last_view h) o.
+Proof. exact fns_at_snoc. Qed.
+Print Assumptions C07_registered_after.
+
+(* routing decisions change neither the view nor the default nor the node's own address *)
+Theorem C07_decision_frame : forall (F : Type) (pinterp : F -> rule F) (s : st F) (o : op F),
+  is_decision o = true ->
+  s_view (next pinterp s o) = s_view s /\ s_dflt (next pinterp s o) = s_dflt s
+  /\ s_self (next pinterp s o) = s_self s.
 Proof. exact decision_frame. Qed.
 Print Assumptions C07_decision_frame.
 
+(* and when no rule (registered or default) ever calls Register, not the registered functions *)
+Theorem C07_decision_frame_table : forall (F : Type) (pinterp : F -> rule F) (s : st F) (o : op F),
+  is_decision o = true -> (forall cs sc, o <> OCalls cs sc) ->
+  rules_regfree F pinterp (pdflt_in pinterp (s_dflt s) (s_view s)) (s_fns s) ->
+  s_fns (next pinterp s o) = s_fns s.
+Proof. exact decision_frame_table. Qed.
+Print Assumptions C07_decision_frame_table.
+
+(* which node asks does not matter: the node's own address (Cluster.InitSelf) is read by no
+   decision - in particular the default rule's "instance on a node in working state"
+   (C07_default) holds whether or not the asking node hosts an instance, is listed, is working *)
+Theorem C07_self_irrelevant : forall (F : Type) (interp : F -> rfn) (pinterp : F -> rule F)
+    (h : list (op F)) a o,
+  obs_at interp pinterp (h ++ [OSelf a]) o = obs_at interp pinterp h o.
+Proof. exact self_irrelevant. Qed.
+Print Assumptions C07_self_irrelevant.
+
 (* [obs_at] is what [run] emits at that position, for every history *)
-Theorem C07_run_snoc : forall (F : Type) (interp : F -> rfn) (pinterp : F -> rule)
+Theorem C07_run_snoc : forall (F : Type) (interp : F -> rfn) (pinterp : F -> rule F)
     (h : list (op F)) (o : op F),
   run interp pinterp (h ++ [o]) = run interp pinterp h ++ [obs_at interp pinterp h o].
 Proof. exact run_snoc. Qed.
 Print Assumptions C07_run_snoc.
 
-(* ---- calls that overlap, calls that nest ----
-   [rules] / [dflt] are ARBITRARY programs (Model.prog: reads of the parameter, type switches,
-   nested Route calls, scheduling points, with arbitrary continuations). *)
+(* ---- calls that overlap, calls that nest, rules that change while calls are in flight ----
+   [pinterp] / [dflt] are ARBITRARY programs (Model.prog: reads of the parameter, type
+   switches, nested Route calls, Register calls, scheduling points, arbitrary continuations);
+   a schedule (list xentry) says which goroutine makes its next step and where a goroutine that
+   is not routing calls Register. *)
 
-(* the frame theorem: under ANY schedule of ANY pool of goroutines inside the route layer, a
-   goroutine is exactly where it would be had it made its own steps alone - no other call's
-   parameter, wrapper or progress can reach it *)
-Theorem C07_interleaving_frame : forall rules dflt sched pool i,
-  nth_error (prun rules dflt sched pool) i
-  = option_map (iter rules dflt (ncount i sched)) (nth_error pool i).
-Proof. exact prun_nth. Qed.
+(* the frame theorem: a step of goroutine j changes goroutine j (and the registered rules),
+   no other goroutine; what j becomes is a function of the registered rules and ITS OWN state.
+   [tstep] is total: a call is never made to wait for another call or for a Register *)
+Theorem C07_interleaving_frame : forall F pinterp dflt st e i,
+  nth_error (snd (pexec F pinterp dflt st e)) i =
+  match e with
+  | XRun j => if Nat.eqb j i
+              then option_map (fun t => snd (tstep F pinterp dflt (fst st) t)) (nth_error (snd st) i)
+              else nth_error (snd st) i
+  | XReg _ _ => nth_error (snd st) i
+  end.
+Proof. exact pexec_nth. Qed.
 Print Assumptions C07_interleaving_frame.
 
-(* the step machine reaches what [eval] (the meaning used by the executable model) computes *)
-Theorem C07_eval_adequate : forall rules dflt fuel ty p n t,
-  eval rules dflt fuel 0 ty p = Some (n, t) ->
-  exists k, forall j, (k <= j)%nat -> iter rules dflt j (start rules dflt ty p) = TDone n t.
+(* the registered rules are written by Register only *)
+Theorem C07_table_written_by_register_only : forall F pinterp dflt tab t,
+  fst (tstep F pinterp dflt tab t) =
+  match t with TRun _ _ (PReg ty f _) _ _ => treg ty f tab | _ => tab end.
+Proof. exact tstep_tab. Qed.
+Print Assumptions C07_table_written_by_register_only.
+
+(* when nobody registers, under ANY schedule of ANY pool a goroutine is exactly where its own
+   steps alone take it *)
+Theorem C07_interleaving_frame_stable : forall F pinterp dflt tab,
+  rules_regfree F pinterp dflt tab ->
+  forall sched pool, forallb is_run sched = true -> Forall (thread_regfree F) pool ->
+  fst (prun F pinterp dflt sched (tab, pool)) = tab
+  /\ forall i, nth_error (snd (prun F pinterp dflt sched (tab, pool))) i
+               = option_map (fun t => snd (iter F pinterp dflt (ncount i sched) (tab, t)))
+                            (nth_error pool i).
+Proof. exact prun_regfree. Qed.
+Print Assumptions C07_interleaving_frame_stable.
+
+(* the step machine reaches what [eval] (a call made alone) computes *)
+Theorem C07_eval_adequate : forall F pinterp dflt fuel tab ty p n t tab1,
+  eval F pinterp dflt fuel tab 0 ty p = Some (n, t, tab1) ->
+  exists k, forall j, (k <= j)%nat ->
+    iter F pinterp dflt j (tab, TInit (Some (ty, p))) = (tab1, TDone n t).
 Proof. exact eval_adequate. Qed.
 Print Assumptions C07_eval_adequate.
 
-(* calls made together, each from its own goroutine: whatever the others do and however the
-   scheduler interleaves them, call i ends with the name and with the view of its parameter
-   that it has when it is made alone *)
-Theorem C07_concurrent_calls_isolated : forall rules dflt fuel (cs : list (Z * param)) i ty p n t,
-  nth_error cs i = Some (ty, p) ->
-  eval rules dflt fuel 0 ty p = Some (n, t) ->
-  exists k, forall sched, (k <= ncount i sched)%nat ->
-    nth_error (prun rules dflt sched (map (fun c => start rules dflt (fst c) (snd c)) cs)) i
-    = Some (TDone n t).
-Proof. exact concurrent_isolated. Qed.
-Print Assumptions C07_concurrent_calls_isolated.
-
 (* the rule consulted for a call is handed the CALLER'S parameter: its kind, and for every key
-   it reads the value the caller's parameter binds it to *)
-Theorem C07_rule_sees_own_param : forall rules dflt fuel ty p n t,
-  eval rules dflt fuel 0 ty p = Some (n, t) -> sees_own ty p t.
+   it reads the value the caller's parameter binds it to - for a call made alone ... *)
+Theorem C07_rule_sees_own_param : forall F pinterp dflt fuel tab ty p n t tab1,
+  eval F pinterp dflt fuel tab 0 ty p = Some (n, t, tab1) -> sees_own ty p t.
 Proof. exact eval_sees_own. Qed.
 Print Assumptions C07_rule_sees_own_param.
 
-(* a call made by a rule (at any depth) is a call: same name, same view of ITS parameter as the
-   same call made by a service *)
-Theorem C07_nested_call_is_call : forall rules dflt fuel d ty p,
-  eval rules dflt fuel d ty p = shifted d (eval rules dflt fuel 0 ty p).
+(* ... and for every goroutine of ANY pool under ANY schedule, whatever the others do and
+   whoever registers whatever meanwhile ([tinv k t]: the rule at the bottom of goroutine t's
+   stack holds the parameter of call k, and everything seen so far is consistent with it) *)
+Theorem C07_rule_sees_own_param_any_schedule : forall F pinterp dflt ks sched tab,
+  Forall2 (tinv F) ks (snd (prun F pinterp dflt sched (tab, map TInit ks))).
+Proof. intros. apply prun_inv. apply init_inv. Qed.
+Print Assumptions C07_rule_sees_own_param_any_schedule.
+
+Theorem C07_returned_call_saw_own_param : forall F k n tr,
+  tinv F k (TDone n tr) -> match k with Some (ty, p) => sees_own ty p tr | None => tr = [] end.
+Proof. exact tinv_done. Qed.
+Print Assumptions C07_returned_call_saw_own_param.
+
+(* the scheduler of the harness is made of such steps: every turn is a number of steps of one
+   goroutine, and what it leaves satisfies the same invariant *)
+Theorem C07_scheduler_turn_is_steps : forall F pinterp dflt fuel tab t tab' t',
+  macro F pinterp dflt fuel tab t = Some (tab', t') ->
+  exists k, iter F pinterp dflt k (tab, t) = (tab', t').
+Proof. exact macro_iter. Qed.
+Print Assumptions C07_scheduler_turn_is_steps.
+
+Theorem C07_scheduler_run_sees_own_param : forall F pinterp dflt tab ks sched tab' pool ent,
+  sim F pinterp dflt tab ks sched = Some (tab', pool, ent) -> Forall2 (tinv F) ks pool.
+Proof. exact sim_inv. Qed.
+Print Assumptions C07_scheduler_run_sees_own_param.
+
+(* a call made by a rule (at any depth) is a call: same name, same view of ITS parameter, same
+   registrations as the same call made by a service *)
+Theorem C07_nested_call_is_call : forall F pinterp dflt fuel tab d ty p,
+  eval F pinterp dflt fuel tab d ty p = shifted F d (eval F pinterp dflt fuel tab 0 ty p).
 Proof. exact eval_shift. Qed.
 Print Assumptions C07_nested_call_is_call.
 
 (* and the rule that made it goes on with ITS OWN parameter: the nested call contributes its
-   name and its trace, nothing else *)
-Theorem C07_nested_call_frame : forall nest d cty p c ty rp,
-  evalp nest d (PCall cty p c) ty rp =
-  match nest (d + 1) cty p with
+   name, its trace and its registrations, nothing else *)
+Theorem C07_nested_call_frame : forall F nest (tab : alist F) d cty p c ty rp,
+  evalp nest tab d (PCall cty p c) ty rp =
+  match nest tab (d + 1) cty p with
   | None => None
-  | Some (n, t) => pre (t ++ [VCall d cty n]) (evalp nest d (c n) ty rp)
+  | Some (n, t, tab1) => pre (t ++ [VCall d cty n]) (evalp nest tab1 d (c n) ty rp)
   end.
 Proof. reflexivity. Qed.
 Print Assumptions C07_nested_call_frame.
 
 (* the name is the one [route] (all theorems above) talks about, with each rule read as the
    function "type, parameter -> what the program answers" *)
-Theorem C07_nested_result : forall rules dflt fuel d ty p n t,
-  eval rules dflt (S fuel) d ty p = Some (n, t) ->
-  n = route (fun t0 => option_map (den rules dflt fuel d) (rules t0))
-            (option_map (den rules dflt fuel d) dflt) p ty.
+Theorem C07_nested_result : forall F pinterp dflt fuel tab d ty p n t tab1,
+  eval F pinterp dflt (S fuel) tab d ty p = Some (n, t, tab1) ->
+  n = route (fun t0 => option_map (den F pinterp dflt fuel tab d) (option_map pinterp (aget t0 tab)))
+            (option_map (den F pinterp dflt fuel tab d) dflt) p ty.
 Proof. exact eval_route. Qed.
 Print Assumptions C07_nested_result.
 
 (* the scripted functions of the harness: program and answer agree *)
-Theorem C07_script_coherent : forall nest s d ty rp r t,
-  evalp nest d (prog_of_script s ty) ty rp = Some (r, t) -> r = interp_script s ty rp.
+Theorem C07_script_coherent : forall nest s tab d ty rp r t tab1,
+  evalp nest tab d (prog_of_script s ty) ty rp = Some (r, t, tab1) -> r = interp_script s ty rp.
 Proof. exact script_coherent. Qed.
 Print Assumptions C07_script_coherent.
-
-(* the schedule under which calls in flight together are run does not show *)
-Theorem C07_schedule_irrelevant : forall (F : Type) reg dflt rules pdflt v cs s1 s2,
-  out reg dflt rules pdflt v (@OCalls F cs s1) = out reg dflt rules pdflt v (@OCalls F cs s2).
-Proof. exact out_schedule_irrelevant. Qed.
-Print Assumptions C07_schedule_irrelevant.
 
 (* ---- model vs. property vocabulary ---- *)
 (* the model's call refines the property-level specification *)
@@ -266,9 +335,9 @@ Print Assumptions C07_call_refines_spec.
 
 (* every trace the model admits passes the monitor (so a monitor failure on an implementation
    trace is a violation of the property, not of the model) *)
-Theorem C07_monitor_sound : forall (F : Type) (interp : F -> rfn) (pinterp : F -> rule)
+Theorem C07_monitor_sound : forall (F : Type) (interp : F -> rfn) (pinterp : F -> rule F)
     (ops : list (op F)) bs,
-  admits_all (run interp pinterp ops) bs = true -> monitor_from interp [] ops bs = true.
+  admits_all (run interp pinterp ops) bs = true -> monitor_from interp pinterp [] ops bs = true.
 Proof. exact monitor_all. Qed.
 Print Assumptions C07_monitor_sound.
 
@@ -324,33 +393,46 @@ Example C07_example_cause :
 Proof. eapply CUnknownType; reflexivity. Qed.
 
 (* two goroutines, both rules stop at a scheduling point BEFORE reading their key; a rule that
-   routes with a key map of its own before it reads its key *)
+   routes with a key map of its own before it reads its key; a rule that registers a rule for
+   another type; another goroutine replacing a rule while calls are in flight *)
+Definition ex_keyed : script := SKey 1 [(1, RName 1); (2, RName 2)] (RName 0) (RName 0).
+
 Definition ex_par : list sop :=
   [OUpdate ex_view;
-   OReg 1 (Some (SPre [AYield] (SKey 1 [(1, RName 1); (2, RName 2)] (RName 0) (RName 0))));
-   OReg 2 (Some (SPre [ACall 1 (PMap [(1, 2)]); AYield] (SKey 1 [(1, RName 3); (2, RName 5)] (RName 0) (RName 0))));
+   OSelf 2;
+   OReg 1 (Some (SPre [AYield] ex_keyed));
+   OReg 2 (Some (SPre [ACall 1 (PMap [(1, 2)]); AReg 3 (Some (SConst (RName 5))); AYield]
+                      (SKey 1 [(1, RName 3); (2, RName 5)] (RName 0) (RName 0))));
    OCalls [CRequest [1; 5; 6] (PMap [(1, 1)]); CRequest [1; 5; 6] (PMap [(1, 2)]);
-           CRoute 2 (PSess [(1, 1)]); CNotify [2; 5; 6] PNil] [0; 1; 2; 3; 1; 0]].
+           CRoute 2 (PSess [(1, 1)]); CNotify [3; 5; 6] PNil]
+          [SRun 0; SRun 1; SReg 1 (Some (SConst (RName 4))); SRun 2; SRun 3; SRun 1; SRun 0];
+   ORoute 3 PNil;
+   ORoute 1 PNil].
 
 Example C07_example_calls :
   run_s ex_par
-  = [MUnit; MUnit; MUnit;
+  = [MUnit; MUnit; MUnit; MUnit;
      MCalls [(MOut (OSend [(0, 1); (0, 1); (0, 1)] true 5 6),
               Some [VKind 0 1 KMap; VGet 0 1 (Some 1)]);
              (MOut (OSend [(0, 2); (0, 2); (0, 2)] true 5 6),
               Some [VKind 0 1 KMap; VGet 0 1 (Some 2)]);
              (MName 3,
-              Some [VKind 0 2 KSess; VKind 1 1 KMap; VGet 1 1 (Some 2); VCall 0 1 2; VGet 0 1 (Some 1)]);
-             (MOut ONothing,
-              Some [VKind 0 2 KNil; VKind 1 1 KMap; VGet 1 1 (Some 2); VCall 0 1 2])]].
+              Some [VKind 0 2 KSess; VKind 1 1 KMap; VCall 0 1 4; VGet 0 1 (Some 1)]);
+             (MOut (OSend [(3, 5); (3, 5)] false 5 6),
+              Some [VKind 0 3 KNil])];
+     MName 5;
+     MName 4].
 Proof. vm_compute. reflexivity. Qed.
 
 (* the step machine under a schedule that stops both goroutines between wrapper creation and
-   the read: both end with their own key *)
+   the read, with a Register in between: both end with their own key *)
 Example C07_example_interleaving :
-  let rules := hrules prog_of_script ex_par in
-  let dflt := hpdflt prog_of_script ex_par in
-  prun rules dflt [0; 1; 0; 1; 1; 0; 0; 1; 0; 1]%nat
-       [start rules dflt 1 (PMap [(1, 1)]); start rules dflt 1 (PMap [(1, 2)])]
-  = [TDone 1 [VKind 0 1 KMap; VGet 0 1 (Some 1)]; TDone 2 [VKind 0 1 KMap; VGet 0 1 (Some 2)]].
+  let tab := fns_at interp_script prog_of_script (firstn 4 ex_par) in
+  let dflt := pdflt_in prog_of_script DApp ex_view in
+  prun script prog_of_script dflt
+       [XRun 0; XRun 1; XRun 0; XRun 1; XReg 1 None; XRun 1; XRun 0; XRun 0; XRun 1; XRun 0; XRun 1;
+        XRun 0; XRun 1]%nat
+       (tab, [TInit (Some (1, PMap [(1, 1)])); TInit (Some (1, PMap [(1, 2)]))])
+  = (adel 1 tab,
+     [TDone 1 [VKind 0 1 KMap; VGet 0 1 (Some 1)]; TDone 2 [VKind 0 1 KMap; VGet 0 1 (Some 2)]]).
 Proof. vm_compute. reflexivity. Qed.
